@@ -792,7 +792,9 @@ def oracle_c19(c, r, err=""):
     if st != 0:
         sig = "not-converged"
         if c["algo"] in FIRST_ORDER and st == 2 and r["nit"] >= 50 * n:
-            sig = "first-order-budget-exhausted"                     # F-66
+            # F-66 is a finding about BOUNDED runs (every change of the active set restarts the method with a steepest-descent
+            # step); without a box nothing ever restarts it, so an exhausted budget there is not that finding (seed C19_9)
+            sig = "first-order-budget-exhausted" if c["bounded"] else "first-order-budget-exhausted-without-box"
         elif c["algo"] in FIRST_ORDER and st == 3 and last_bound_step(r) is not None and 0.0 < last_bound_step(r) < 1e-9:
             sig = "line-search-stalled-next-to-face"                 # F-68
         elif c["algo"] in SECOND_ORDER and st == 3 and last_cap_frac(r) == 0.0:
